@@ -15,7 +15,7 @@ def main():
     ids = [a for a in sys.argv[1:] if not a.startswith('--')]
     tier = 'thorough' if '--thorough' in sys.argv else 'quick'
     root = os.path.join(HERE, 'seeded')
-    ids = ids or sorted(os.listdir(root))
+    ids = ids or sorted(d for d in os.listdir(root) if d.startswith('C'))
     results = {}
     for sid in ids:
         d = os.path.join(root, sid)
@@ -38,6 +38,11 @@ def main():
         finally:
             subprocess.run(['git', '-C', '/repo', 'worktree', 'remove', '--force', wt])
         print(sid, prop, results[sid], flush=True)
+        if '--record' in sys.argv:
+            # one line per seeded change in seeded/RESULTS.txt (kept under version control; read by DESIGN.md 9.3)
+            head = subprocess.run(['git', '-C', '/repo', 'rev-parse', '--short', 'HEAD'], capture_output=True, text=True).stdout.strip()
+            with open(os.path.join(root, 'RESULTS.txt'), 'a') as f:
+                f.write('%s check=%s tier=%s repo=%s %s\n' % (sid, prop, tier, head, results[sid]))
     return 0 if all(v.startswith('CAUGHT') for v in results.values()) else 1
 
 
